@@ -846,3 +846,26 @@ pub proof fn lemma_pop_ends(a: ModuleEntryIterator, b: ModuleEntryIterator, p: &
     lemma_pop_step(a, b, p);
 }
 } // verus!
+verus! {
+/// a run of consecutive next() calls (witness chain used by the consumers of the walk)
+pub open spec fn is_chain(sts: Seq<ModuleEntryIterator>, rss: Seq<Option<(&Url, ModuleEntryRef)>>) -> bool {
+    &&& sts.len() == rss.len() + 1
+    &&& forall|i: int| 0 <= i < rss.len() ==> next_rel(#[trigger] sts[i], sts[i + 1], rss[i]) && wf(sts[i + 1])
+}
+pub proof fn lemma_chain_push(sts: Seq<ModuleEntryIterator>, rss: Seq<Option<(&Url, ModuleEntryRef)>>, nxt: ModuleEntryIterator, r: Option<(&Url, ModuleEntryRef)>)
+    requires is_chain(sts, rss), next_rel(sts.last(), nxt, r), wf(nxt),
+    ensures is_chain(sts.push(nxt), rss.push(r)), sts.push(nxt).last() == nxt, sts.push(nxt)[0] == sts[0],
+{
+    let s2 = sts.push(nxt);
+    let r2 = rss.push(r);
+    assert forall|i: int| 0 <= i < r2.len() implies next_rel(#[trigger] s2[i], s2[i + 1], r2[i]) && wf(s2[i + 1]) by {
+        if i < rss.len() { assert(s2[i] == sts[i] && s2[i + 1] == sts[i + 1] && r2[i] == rss[i]); }
+        else { assert(s2[i] == sts.last() && s2[i + 1] == nxt && r2[i] == r); }
+    }
+}
+pub proof fn lemma_next_rel_config(a: ModuleEntryIterator, b: ModuleEntryIterator, r: Option<(&Url, ModuleEntryRef)>)
+    requires next_rel(a, b, r),
+    ensures same_config(a, b), *b.graph == *a.graph, opts_of(b) == opts_of(a),
+{
+}
+} // verus!
